@@ -235,6 +235,25 @@ CHECKS.update({
         engine="scopes"),
 })
 
+CHECKS.update({
+    "C10": dict(
+        category="model_checking",
+        text="Exprs.tla models a fragment of Go boolean expressions (int and float variables, +-1, decimal / octal / hex literals, "
+             "negation, and/or), IEEE evaluation with NaN, and a transcription of boolExprSimplify with its guards; Preserves holds "
+             "for every term and environment with the repaired guards and is refuted for the pinned ones. Every enumerated term "
+             "(10 000+ in the quick tier) is rendered as a Go function and analysed by the real checker; the original and the real "
+             "suggestion are compiled into one program and executed on the environment grid - the toolchain is the oracle and also "
+             "validates the model's evaluation. 110 executable templates exercise the rewriting rule groups (assignOp, "
+             "emptyStringTest, stringXbytes, unslice, switchTrue, valSwap, wrapperFunc incl. strings.Cut, yodaStyleExpr, stringsCompare, "
+             "redundantSprint, timeExprSimplify, underef, unlambda, newDeref, equalFold, stringConcatSimplify) with pure, impure, float, "
+             "string, []byte, error, nil operands and are executed the same way (results and side-effect logs compared).",
+        design_ref="DESIGN.md section 6 C10, Appendix A.9",
+        note="Bounded term depth and input grid; no integer overflow; three behaviour changes are known findings (two asserted by the "
+             "repository's own tests).",
+        technique="bounded-exhaustive TLA+ term enumeration + differential execution of original vs suggested code",
+        engine="exprs"),
+})
+
 NOT_YET = "check not built yet (construction in progress; see DESIGN.md section 6)"
 NOT_APPLICABLE = {}
 
